@@ -314,6 +314,19 @@ struct Slot {
     parent: Option<usize>,
 }
 
+/// Slots in which a fault is planted for `mask`: bit b stands for slot b, or, for tables with
+/// more than 64 slots, for slot b*(n-1)/63 (so the bits spread over the whole table, last slot
+/// included).
+pub fn planted_slots(mask: u64, n: usize) -> Vec<usize> {
+    let mut v: Vec<usize> = (0..64usize)
+        .filter(|b| (mask >> b) & 1 == 1)
+        .filter_map(|b| if n <= 64 { if b < n { Some(b) } else { None } } else { Some(b * (n - 1) / 63) })
+        .collect();
+    v.sort_unstable();
+    v.dedup();
+    v
+}
+
 pub fn g_fn(salt: u64, pos: usize, old: &Val) -> Val {
     Val(old.0.wrapping_mul(1_000_003).wrapping_add(pos as u64 * 7919).wrapping_add(salt.wrapping_mul(104_729)))
 }
@@ -558,8 +571,8 @@ impl<'a> Exec<'a> {
                 Op::All(h, mask, how) => {
                     let i = hh(*h);
                     let s = &slots[i];
-                    let slots_in: Vec<Option<Val>> = s.model.iter().enumerate().map(|(p, v)| if (mask >> p) & 1 == 1 { None } else { Some(v.clone()) }).collect();
-                    let planted: Vec<usize> = (0..n).filter(|p| (mask >> p) & 1 == 1).collect();
+                    let planted: Vec<usize> = planted_slots(*mask, n);
+                    let slots_in: Vec<Option<Val>> = s.model.iter().enumerate().map(|(p, v)| if planted.binary_search(&p).is_ok() { None } else { Some(v.clone()) }).collect();
                     if let Some(st) = stats.as_deref_mut() {
                         st.add(F_NONE, planted.len() as u64);
                         if planted.is_empty() {
@@ -593,8 +606,8 @@ impl<'a> Exec<'a> {
                     let i = hh(*h);
                     let s = &slots[i];
                     // unique error value per slot so that the *first* one is identifiable
-                    let slots_in: Vec<Result<Val, Val>> = s.model.iter().enumerate().map(|(p, v)| if (mask >> p) & 1 == 1 { Err(Val(9_000_000 + p as u64)) } else { Ok(v.clone()) }).collect();
-                    let planted: Vec<usize> = (0..n).filter(|p| (mask >> p) & 1 == 1).collect();
+                    let planted: Vec<usize> = planted_slots(*mask, n);
+                    let slots_in: Vec<Result<Val, Val>> = s.model.iter().enumerate().map(|(p, v)| if planted.binary_search(&p).is_ok() { Err(Val(9_000_000 + p as u64)) } else { Ok(v.clone()) }).collect();
                     if let Some(st) = stats.as_deref_mut() {
                         st.add(F_ERR, planted.len() as u64);
                         if planted.is_empty() {
@@ -764,8 +777,10 @@ pub fn gen_ops(rng: &mut Rng, n: usize, nd: usize) -> Vec<Op> {
                 1 => full,
                 2 => 1 & full,
                 3 => {
-                    if n > 0 {
-                        1u64 << (n.min(64) - 1)
+                    if n > 64 {
+                        1u64 << 63
+                    } else if n > 0 {
+                        1u64 << (n - 1)
                     } else {
                         0
                     }
